@@ -23,6 +23,13 @@ type hashmap struct {
 	ex      *Explorer
 	keyType types.Type
 	ents    []*entry
+	race    *mapRace // happens-before bookkeeping (race.go), only while goroutines exist
+}
+
+func (m *hashmap) touch(write bool) {
+	if m != nil && m.ex != nil && m.ex.nthreads > 0 {
+		m.ex.mapAccess(m, write)
+	}
 }
 
 func makeMap(ex *Explorer, kt types.Type, reserve int64) value {
@@ -49,12 +56,14 @@ func (m *hashmap) find(k value) int {
 }
 
 func (m *hashmap) delete(k value) {
+	m.touch(true)
 	if i := m.find(k); i >= 0 {
 		m.ents = append(m.ents[:i:i], m.ents[i+1:]...)
 	}
 }
 
 func (m *hashmap) lookup(k value) value {
+	m.touch(false)
 	if i := m.find(k); i >= 0 {
 		return m.ents[i].value
 	}
@@ -65,6 +74,7 @@ func (m *hashmap) insert(k value, v value) {
 	if m == nil {
 		panic("target:assignment to entry in nil map")
 	}
+	m.touch(true)
 	if i := m.find(k); i >= 0 {
 		m.ents[i].value = v
 		return
@@ -73,6 +83,7 @@ func (m *hashmap) insert(k value, v value) {
 }
 
 func (m *hashmap) len() int {
+	m.touch(false)
 	if m != nil {
 		return len(m.ents)
 	}
@@ -97,6 +108,7 @@ func (m *hashmap) iter() *hashmapIter {
 	if m == nil {
 		return &hashmapIter{}
 	}
+	m.touch(false)
 	ents := append([]*entry{}, m.ents...)
 	if m.ex != nil && m.ex.cfg.ReverseMaps != m.ex.revMaps {
 		for i, j := 0, len(ents)-1; i < j; i, j = i+1, j-1 {
